@@ -90,7 +90,7 @@ fn budget(prop: &str, tier: &str) -> u64 {
         _ => 20_000,
     };
     if tier == "thorough" {
-        quick * 40
+        quick * 20
     } else {
         quick
     }
